@@ -25,7 +25,9 @@ RULE = ('(1) exhaustive strings (len <= L over {quote, double quote, backslash, 
         'non-trivial iff the text contains a string literal or is a respelling that differs from the canonical spelling; distinct = distinct text')
 
 HOSTILE_LITERALS = ['select', 'SELECT * FROM a', 'where x', '* ,', ' as x', 'order by a1 desc', '#c', ';', 'a1', 'b.x', ' with (header)', "it's", 'q"q', 'back\\slash', 'a1 = 5',
-                    'join b on a1 == b1', ', ', 'limit 1', 'top 5', 'distinct', 'group by', 'update set', 'except a1', ' ', '', 'NR', '[x]', '(', 'a[1]', '==', 'x\ty', 'é']
+                    'join b on a1 == b1', ', ', 'limit 1', 'top 5', 'distinct', 'group by', 'update set', 'except a1', ' ', '', 'NR', '[x]', '(', 'a[1]', '==', 'x\ty', 'é',
+                    # replacement patterns of JavaScript's String.replace / replaceAll and of Python's str.format / % / re.sub: literal text is opaque to all of them
+                    '$$', '<$&>', 'US$', '$`x', "a$'b", '$1', '{}', '{0}', '%s', '%(x)s', '\\1', '\\g<0>']
 
 
 def gen_parse_texts(rnd, n):
@@ -61,7 +63,7 @@ def gen_join_texts(rnd, n):
 
 
 LIT_TOKENS = [',', ', ', '*', ' * ', 'a.*', 'b.*', ' as ', 'AS', 'x', 'y', 'z1', 'count(*)', ' COUNT( * )', 'select', 'from a', 'where', '=', '==', '#', ';', '(', ')', '[', ']', 'a1', 'a[1]',
-              'NR', 'top 2', 'distinct', 'join b on', 'order by', 'limit 1', 'with (header)', 'group by', 'except', 'unnest(', 'update', 'set', ' ', '  ', '.', 'b1', 'like', 'and', 'or', '!=', 'é']
+              'NR', 'top 2', 'distinct', 'join b on', 'order by', 'limit 1', 'with (header)', 'group by', 'except', 'unnest(', 'update', 'set', ' ', '  ', '.', 'b1', 'like', 'and', 'or', '!=', 'é', '$', '$$', '$&', '{', '}', '%']
 
 
 def hostile_literal(rnd):
